@@ -2,6 +2,7 @@ package harness
 
 import (
 	"context"
+	"errors"
 	"fmt"
 	"os"
 	"path/filepath"
@@ -165,7 +166,8 @@ func hooksC15() Hooks {
 		default:
 			return
 		}
-		if err != nil {
+		interrupted := errors.Is(err, errBackoffStop)
+		if err != nil && !interrupted {
 			return // reported through Strict
 		}
 		hc, _ := r.Ctx["helper"].(*HelperCall)
@@ -191,6 +193,12 @@ func hooksC15() Hooks {
 		}
 		if d := diffLive(live, r.M.Live); d != "" {
 			r.violate(kind+"|touched-outside-prefix|"+diffKind(d), "%s(%d) reported %v: %s", kind, hc.Bound, gotOffs, d)
+			return
+		}
+		if interrupted {
+			// stopped half-way by the harness's backoff: what it reports is all it removed
+			// (checked above); the bound is not established
+			r.probe("trim_interrupted_checked")
 			return
 		}
 		if hc.Variant == 0 {
@@ -269,7 +277,8 @@ func hooksC16() Hooks {
 		default:
 			return
 		}
-		if err != nil {
+		interrupted := errors.Is(err, errBackoffStop)
+		if err != nil && !interrupted {
 			return
 		}
 		// the log itself must show exactly before − reported
@@ -350,7 +359,7 @@ func hooksC16() Hooks {
 			}
 		}
 		hc, _ := r.Ctx["helper"].(*HelperCall)
-		if kind == "cmp_upd" && hc != nil && hc.Variant >= 1 && before.Monotone {
+		if kind == "cmp_upd" && hc != nil && hc.Variant >= 1 && before.Monotone && !interrupted {
 			cnt := map[string]int{}
 			for _, y := range r.M.Live {
 				if y.US <= cutoff {
